@@ -45,9 +45,9 @@ class H:
 
     def commit(self, t, verify=True):
         self.emit("commit %d" % t)
+        self.emit("snap")
         if verify:
             self.emit("check")
-            self.emit("snap")
             r = self.begin(False)
             self.emit("dump %d" % r)
             self.emit("drop %d" % r)
@@ -374,8 +374,8 @@ def g6(seed, steps=40, max_readers=4, nkeys=40, keylen=60):
                 h.emit("drop %d" % t)
             else:
                 h.emit("commit %d" % t)
-                h.emit("check")
                 h.emit("snap")
+                h.emit("check")
         for x in readers:
             h.emit("dump %d" % x)
     for x in readers:
@@ -498,4 +498,146 @@ def g8(seed, shape="multi"):
     rb = h.bucket("getb", r, 0, hx("b"))
     all_reads(r, rb, 25)
     h.emit("drop %d" % r)
+    return h.text()
+
+
+def g7(seed, nkeys=None, keylen=None, ntx=4):
+    """C07: inside one write transaction, the full read API after every single mutation, over
+    committed multi-level trees (long keys => deletes empty whole leaves)"""
+    rng = random.Random(seed)
+    h = H()
+    nkeys = nkeys or rng.choice([6, 14, 24])
+    keylen = keylen or rng.choice([8, 120, 200, 300])
+    keys = [lk(2 * i + 1, keylen) for i in range(nkeys)]
+    gaps = [lk(2 * i, keylen) for i in range(nkeys + 1)]
+    t = h.begin(True)
+    b = h.bucket("create", t, 0, hx("b"))
+    for i, k in enumerate(keys):
+        h.emit("put %d %d %s %s" % (t, b, k, "r5:%d" % i))
+        if rng.random() < 0.6:
+            h.commit(t, verify=False)
+            t = h.begin(True)
+            b = h.bucket("getb", t, 0, hx("b"))
+    for j in (1, nkeys // 2):
+        if j < nkeys:
+            s = h.bucket("create", t, b, keys[j] + "+73")
+            h.emit("put %d %d %s %s" % (t, s, hx("x"), hx("y")))
+    h.commit(t)
+
+    def rd(t, b):
+        h.emit("scan %d %d" % (t, b))
+        k = rng.choice(keys + gaps)
+        h.emit("get %d %d %s" % (t, b, k))
+        h.emit("getkv %d %d %s" % (t, b, k))
+        h.emit("seek %d %d %s" % (t, b, rng.choice(keys + gaps)))
+        h.emit("range %d %d %s %s %s %s" % (t, b, rng.choice("IEU"), rng.choice(keys + gaps), rng.choice("IEU"), rng.choice(keys + gaps)))
+        h.emit("buckets %d %d" % (t, b))
+        h.emit("kvpairs %d %d" % (t, b))
+        h.emit("nextint %d %d" % (t, b))
+
+    for _ in range(ntx):
+        t = h.begin(True)
+        b = h.bucket("getb", t, 0, hx("b"))
+        mode = rng.random()
+        lo = rng.randrange(nkeys)
+        n = rng.randrange(1, nkeys)
+        for i in range(lo, min(nkeys, lo + n)):
+            r = rng.random()
+            if mode < 0.5 or r < 0.5:
+                h.emit("del %d %d %s" % (t, b, keys[i]))
+            elif r < 0.8:
+                h.emit("put %d %d %s %s" % (t, b, rng.choice(gaps), rval(rng, [0, 16, 300])))
+            else:
+                kind = rng.choice(["create", "goc", "delb"])
+                nm = keys[rng.randrange(nkeys)] + "+73"
+                if kind == "delb":
+                    h.emit("delb %d %d %s" % (t, b, nm))
+                else:
+                    s = h.bucket(kind, t, b, nm)
+                    h.emit("put %d %d %s %s" % (t, s, hx("q"), hx("r")))
+            rd(t, b)
+        h.emit("dump %d" % t)
+        if rng.random() < 0.3:
+            h.emit("drop %d" % t)
+        else:
+            h.commit(t)
+    return h.text()
+
+
+def g_c6(seed):
+    """C06: rollbacks of large transactions, erroring calls, read-only transactions and reopen,
+    with the file's bytes hashed before and after each of them"""
+    rng = random.Random(seed)
+    h = H()
+    kl = rng.choice([20, 120, 200])
+    nk = rng.choice([10, 40, 120])
+    keys = [lk(i, kl) for i in range(nk)]
+    t = h.begin(True)
+    for a in ("A", "B"):
+        ha = h.bucket("create", t, 0, hx(a))
+        for k in keys:
+            h.emit("put %d %d %s %s" % (t, ha, k, rval(rng, [0, 16, 300, 1500])))
+        for m in ("M", "N"):
+            hm = h.bucket("create", t, ha, hx(m))
+            for k in keys[: nk // 2]:
+                h.emit("put %d %d %s %s" % (t, hm, k, rval(rng, [0, 16])))
+    h.commit(t)
+    for _ in range(rng.randrange(4, 9)):
+        r = rng.random()
+        h.emit("filehash")
+        if r < 0.45:
+            # a large transaction that is abandoned
+            t = h.begin(True)
+            ha = h.bucket("getb", t, 0, hx(rng.choice("AB")))
+            for _ in range(rng.randrange(1, 30)):
+                x = rng.random()
+                if x < 0.4:
+                    h.emit("put %d %d %s %s" % (t, ha, rng.choice(keys) + "+%02x" % rng.randrange(3), rval(rng, [0, 16, 300, 5000])))
+                elif x < 0.7:
+                    h.emit("del %d %d %s" % (t, ha, rng.choice(keys)))
+                elif x < 0.8:
+                    h.emit("delb %d %d %s" % (t, ha, hx(rng.choice("MN"))))
+                elif x < 0.9:
+                    h.emit("delb %d 0 %s" % (t, hx(rng.choice("AB"))))
+                else:
+                    s = h.bucket("goc", t, ha, hx("new%d" % rng.randrange(3)))
+                    h.emit("put %d %d %s %s" % (t, s, hx("k"), rval(rng, [16, 3000])))
+            h.emit("dump %d" % t)
+            h.emit("drop %d" % t)
+            h.emit("filehash=")
+        elif r < 0.6:
+            # erroring calls change nothing: compare dumps before / after inside one transaction
+            t = h.begin(True)
+            ha = h.bucket("getb", t, 0, hx("A"))
+            h.emit("dump %d" % t)
+            for line in ["create %d 0 %s 90" % (t, hx("A")), "getb %d 0 %s 91" % (t, hx("nope")),
+                         "delb %d 0 %s" % (t, hx("nope")), "del %d %d %s" % (t, ha, hx("absent")),
+                         "put %d %d %s %s" % (t, ha, hx("M"), hx("v")), "create %d %d %s 92" % (t, ha, keys[0]),
+                         "del %d %d %s" % (t, ha, hx("M")), "delb %d %d %s" % (t, ha, keys[1]),
+                         "goc %d %d %s 93" % (t, ha, keys[2]), "create %d %d %s 94" % (t, ha, hx("M"))]:
+                h.emit(line)
+            h.emit("dump %d" % t)
+            h.emit("drop %d" % t)
+            h.emit("filehash=")
+        elif r < 0.8:
+            x = h.begin(False)
+            xa = h.bucket("getb", x, 0, hx("A"))
+            for line in ["put %d %d %s %s" % (x, xa, hx("k"), hx("v")), "del %d %d %s" % (x, xa, keys[0]),
+                         "create %d %d %s 95" % (x, xa, hx("z")), "goc %d %d %s 96" % (x, xa, hx("M")),
+                         "delb %d %d %s" % (x, xa, hx("M")), "create %d 0 %s 97" % (x, hx("Z")),
+                         "goc %d 0 %s 98" % (x, hx("Z")), "delb %d 0 %s" % (x, hx("A"))]:
+                h.emit(line)
+            h.emit("scan %d %d" % (x, xa))
+            h.emit("dump %d" % x)
+            h.emit(rng.choice(["commit %d", "drop %d"]) % x)
+            h.emit("filehash=")
+        else:
+            h.emit("reopen")
+            h.emit("filehash=")
+        if rng.random() < 0.5:
+            t = h.begin(True)
+            ha = h.bucket("getb", t, 0, hx(rng.choice("AB")))
+            for _ in range(rng.randrange(1, 6)):
+                h.emit("put %d %d %s %s" % (t, ha, rng.choice(keys), rval(rng, [0, 16, 300])))
+            h.commit(t)
     return h.text()
